@@ -47,7 +47,12 @@ Record udesc := mkUD {
   d_en0 : float;                 (* start energy *)
   d_spneed : Z; d_spadd : Z;
   d_tt_attack : ttype; d_tt_skill : ttype; d_tt_ult : ttype;
-  d_acts : list nat }.           (* script ids of the unit's successive actions (any kind) *)
+  d_acts : list nat;             (* script ids of the unit's successive actions (any kind) *)
+  (* the character's own Skill.CanUse / Ult.CanUse check (content code): [] = none registered; otherwise
+     the answer at an action is the entry indexed by the number of action scripts the unit has left
+     (true beyond the list).  Skill.CanUse comes ON TOP of the skill-point test; Ult.CanUse REPLACES the
+     full-energy test (simulation/info.go) *)
+  d_skchk : list bool; d_ultchk : list bool }.
 
 (* decisions of the script callbacks: action type 0 = attack, 1 = skill, 2 = anything else;
    evaluator 100 First, 101 LowestHP, 102 LowestHPRatio, else a target id *)
@@ -74,7 +79,8 @@ Record config := mkCfg {
 Record unit := mkUnit {
   uid : Z; uchar : bool; uhp : float; umax : float; ust : lstate; ulast : Z;
   uen : float; umaxen : float; uflags : list Z; urev : bool;
-  uspneed : Z; uspadd : Z; utt_a : ttype; utt_s : ttype; utt_u : ttype; uacts : list nat }.
+  uspneed : Z; uspadd : Z; utt_a : ttype; utt_s : ttype; utt_u : ttype; uacts : list nat;
+  uskchk : list bool; uultchk : list bool }.
 
 Inductive taskkind :=
 | KAbility (key prio : Z) (abort : list Z) (body : nat)
@@ -151,19 +157,19 @@ Definition upd_unit (s : sim) (u : unit) : sim := set_units s (put_unit (units s
 
 Definition with_hp (u : unit) (hp : float) (st : lstate) (last : Z) : unit :=
   mkUnit (uid u) (uchar u) hp (umax u) st last (uen u) (umaxen u) (uflags u) (urev u)
-         (uspneed u) (uspadd u) (utt_a u) (utt_s u) (utt_u u) (uacts u).
+         (uspneed u) (uspadd u) (utt_a u) (utt_s u) (utt_u u) (uacts u) (uskchk u) (uultchk u).
 Definition with_en (u : unit) (e : float) : unit :=
   mkUnit (uid u) (uchar u) (uhp u) (umax u) (ust u) (ulast u) e (umaxen u) (uflags u) (urev u)
-         (uspneed u) (uspadd u) (utt_a u) (utt_s u) (utt_u u) (uacts u).
+         (uspneed u) (uspadd u) (utt_a u) (utt_s u) (utt_u u) (uacts u) (uskchk u) (uultchk u).
 Definition with_flags (u : unit) (fl : list Z) : unit :=
   mkUnit (uid u) (uchar u) (uhp u) (umax u) (ust u) (ulast u) (uen u) (umaxen u) fl (urev u)
-         (uspneed u) (uspadd u) (utt_a u) (utt_s u) (utt_u u) (uacts u).
+         (uspneed u) (uspadd u) (utt_a u) (utt_s u) (utt_u u) (uacts u) (uskchk u) (uultchk u).
 Definition with_rev (u : unit) (b : bool) : unit :=
   mkUnit (uid u) (uchar u) (uhp u) (umax u) (ust u) (ulast u) (uen u) (umaxen u) (uflags u) b
-         (uspneed u) (uspadd u) (utt_a u) (utt_s u) (utt_u u) (uacts u).
+         (uspneed u) (uspadd u) (utt_a u) (utt_s u) (utt_u u) (uacts u) (uskchk u) (uultchk u).
 Definition with_acts (u : unit) (a : list nat) : unit :=
   mkUnit (uid u) (uchar u) (uhp u) (umax u) (ust u) (ulast u) (uen u) (umaxen u) (uflags u) (urev u)
-         (uspneed u) (uspadd u) (utt_a u) (utt_s u) (utt_u u) a.
+         (uspneed u) (uspadd u) (utt_a u) (utt_s u) (utt_u u) a (uskchk u) (uultchk u).
 
 Definition is_char (s : sim) (id : Z) : bool :=
   match get_unit (units s) id with Some u => uchar u | None => false end.
@@ -340,7 +346,7 @@ Section Scripts.
 
   Definition with_state (u : unit) (st : lstate) : unit :=
     mkUnit (uid u) (uchar u) (uhp u) (umax u) st (ulast u) (uen u) (umaxen u) (uflags u) (urev u)
-           (uspneed u) (uspadd u) (utt_a u) (utt_s u) (utt_u u) (uacts u).
+           (uspneed u) (uspadd u) (utt_a u) (utt_s u) (utt_u u) (uacts u) (uskchk u) (uultchk u).
 
   (* attribute.emitHPChangeEvents: the new ratio (and, for damage, the last attacker) is stored, the
      HPChange event is emitted (its listeners run, then it is logged), and only then the life state is
@@ -574,6 +580,12 @@ Section Scripts.
     end.
 
   (* ---- ultCheck ---- *)
+  (* simulation.CanUseUlt: the character's own check if it registered one, else full energy *)
+  Definition can_ult (u : unit) : bool :=
+    match uultchk u with
+    | [] => PrimFloat.eqb (PrimFloat.div (uen u) (umaxen u)) 1
+    | l => nth (length (uacts u)) l true
+    end.
   Fixpoint ult_reqs (s : sim) (reqs : list ultreq) : outcome :=
     match reqs with
     | [] => Ok s
@@ -582,7 +594,7 @@ Section Scripts.
         | None => Err s
         | Some u =>
             if negb (uchar u) then Err s else
-            if PrimFloat.eqb (PrimFloat.div (uen u) (umaxen u)) 1 then
+            if can_ult u then
               let s1 := enqueue s PRIO_CHAR_ACTION (ur_target r) [FLAG_STAT_CTRL; FLAG_DISABLE_ACTION] (KUlt r) in
               ult_reqs (set_energy s1 (ur_target r) 0) rest
             else ult_reqs s rest
@@ -652,6 +664,11 @@ Section Scripts.
 
   Inductive aout := AOk (s : sim) | AErr (s : sim) | ACrash (s : sim) | AFuel.
 
+  (* simulation.CanUseSkill: enough skill points and, if the character registered one, its own check *)
+  Definition own_check (u : unit) (l : list bool) : bool := nth (length (uacts u)) l true.
+  Definition can_skill (u : unit) (s : sim) : bool :=
+    (uspneed u <=? sp s) && match uskchk u with [] => true | l => own_check u l end.
+
   Definition execute_action (fuel : nat) (s : sim) (id : Z) (ins : bool) : aout :=
     match get_unit (units s) id with
     | None => AOk s
@@ -662,7 +679,7 @@ Section Scripts.
           let '(d, q) := pop_next (next_q s) id in
           let s1 := emit (set_next s q) [VNextAction id (dc_type d) (dc_eval d)] in
           let want_skill := dc_type d =? 1 in
-          let can := uspneed u <=? sp s1 in
+          let can := can_skill u s1 in
           let '(use_skill, evl, s2) :=
             if want_skill && negb can then (false, 100, emit s1 [VDefaultAction id])
             else (want_skill, dc_eval d, s1) in
@@ -856,6 +873,7 @@ Section Scripts.
         let e0 := if PrimFloat.ltb (d_maxen d) (d_en0 d) then d_maxen d else d_en0 d in
         mkUnit i (d_char d) 1%float (d_maxhp d) Alive i e0 (d_maxen d) [] false
                (d_spneed d) (d_spadd d) (d_tt_attack d) (d_tt_skill d) (d_tt_ult d) (d_acts d)
+               (d_skchk d) (d_ultchk d)
         :: mk_units r (i + 1)
     end.
 
